@@ -103,7 +103,7 @@ func spec_userAction(r int, dollarDolar *StateSym, Dollar []StateSym)
 //@ ensures [C01] dd != nil && fresh(dd) && dd.YySymIndex == spec_lhs(reduceIndex)
 //@ ensures [C01,C07] StackPointer == old(StackPointer) - spec_rhsLen(reduceIndex) && StateSymStack == old(StateSymStack)
 // $$ starts as a fresh zero value and $0..$n is exactly the window of the top n+1 stack entries (C07, C15)
-//@ before_stmt [C07,C15] "spec_userAction(" dollarDolar != nil && fresh(dollarDolar) && dollarDolar.ValType == ValType{} &&
+//@ before_stmt [C07,C15,C08] "spec_userAction(" dollarDolar != nil && fresh(dollarDolar) && dollarDolar.ValType == ValType{} &&
 //@     len(Dollar) == spec_rhsLen(reduceIndex) + 1 &&
 //@     (forall n int :: 0 <= n && n <= spec_rhsLen(reduceIndex) ==> Dollar[n] == StateSymStack[StackPointer-1-spec_rhsLen(reduceIndex)+n])
 //@ modifies StackPointer
